@@ -149,6 +149,30 @@ theorem edge_ring_cjk_walk_terminates (r : Ring) (hI : RingInv r) (stop valid : 
     walkCjk r.next r.first stop valid r.ms.length x = true :=
   walk_cjk_of_walk r.next r.first r.last stop valid hI.2.2.2 _ x (edge_ring_walk_terminates r hI x hx)
 
+/-- **Every segment is linked at most once by `compute_edges`** (topo/edges.rs; loop headers, skip conditions and the
+two `append_segment_to_edge` call sites are compared textually on every run).  Pass 1 runs `for segment_ix in
+0..segments.len()` and links (new edge or append) a subset `link1` of the indices, which for the Default script group
+excludes `segment.dir == None`; pass 2 runs only for the Default group, over the same range, and links a subset `link2`
+of the indices with `segment.dir == None`.  The sequence of linked indices has no repetition — the admissibility
+hypothesis of `edge_ring_invariant` for the `append` operations (a freshly linked segment is in no ring yet). -/
+theorem compute_edges_links_each_segment_once (N : Nat) (isDefault : Bool) (dirNone link1 link2 : Nat → Bool)
+    (h1 : ∀ i, isDefault = true → dirNone i = true → link1 i = false)
+    (h2 : ∀ i, link2 i = true → dirNone i = true) :
+    ((List.range N).filter link1 ++ (if isDefault = true then (List.range N).filter link2 else [])).Nodup := by
+  rw [List.nodup_append]
+  refine ⟨List.Nodup.sublist List.filter_sublist List.nodup_range, ?_, ?_⟩
+  · split
+    · exact List.Nodup.sublist List.filter_sublist List.nodup_range
+    · simp
+  · intro a ha b hb hab
+    subst hab
+    split at hb
+    · rename_i hd
+      simp at ha hb
+      have := h1 a hd (h2 a hb.2)
+      simp [this] at ha
+    · simp at hb
+
 example : walkCjk (append (append (newEdge (fun _ => none) 7) 3) 9).next 7 (fun _ => false) (fun _ => true) 3 7 = true := by decide
 example : walkCjk (append (append (newEdge (fun _ => none) 7) 3) 9).next 7 (fun _ => false) (fun _ => true) 2 7 = false := by decide
 
